@@ -251,8 +251,52 @@ def _last(name: str) -> str:
     return name.rsplit(".", 1)[-1]
 
 
+def rule_pure(ctx: Ctx) -> None:
+    """Combinators build new sweeps: no method stores into the receiver, an operand, or a container reachable from them,
+    and no method other than __init__ (re)binds attributes of `self` (a Sweep carries no hidden state between calls)."""
+    from .c20 import MUTATING, Alias
+
+    n = 0
+    for cname in ("Sweep", "MultiSweep"):
+        cls = ctx.prog.cls(f"{MOD}.{cname}")
+        for mname, fn in cls.methods.items():
+            if mname in ("__init__", "__post_init__"):
+                continue
+            tracked = {"self"} | {p.arg for p in fn.params if p.annotation is not None and any(w in ast.unparse(p.annotation) for w in ("Sweep", "dict", "list"))}
+            if mname in ("combine",) and cname == "MultiSweep":
+                continue  # documented in-place operation of MultiSweep
+            n += 1
+            al = Alias(fn, tracked)
+            bad: list[tuple[ast.AST, str]] = []
+            for s_ in walk_no_nested(fn.node):
+                targets: list[ast.AST] = []
+                if isinstance(s_, ast.Assign):
+                    targets = s_.targets
+                elif isinstance(s_, (ast.AugAssign, ast.AnnAssign)):
+                    targets = [s_.target]
+                elif isinstance(s_, ast.Delete):
+                    targets = s_.targets
+                for t in targets:
+                    if isinstance(t, ast.Attribute) and isinstance(t.value, ast.Name) and t.value.id == "self":
+                        bad.append((s_, f"`{norm(s_)[:70]}` stores state on the sweep outside its constructor: later calls see what an earlier call (or its caller) left there"))
+                    elif isinstance(t, (ast.Subscript, ast.Attribute)):
+                        owners = al.mutated_owner(t.value)
+                        if owners:
+                            bad.append((s_, f"`{norm(s_)[:70]}` stores into an object reachable from `{sorted(owners)[0]}`"))
+                if isinstance(s_, ast.Expr) and isinstance(s_.value, ast.Call) and isinstance(s_.value.func, ast.Attribute) and s_.value.func.attr in MUTATING:
+                    owners = al.mutated_owner(s_.value.func.value)
+                    if owners:
+                        bad.append((s_, f"`{norm(s_)[:70]}` mutates an object reachable from `{sorted(owners)[0]}`: the operand sweep is changed by building a new one"))
+            if bad:
+                for node, msg in bad:
+                    ctx.add("6-pure", fn, node, False, msg)
+            else:
+                ctx.add("6-pure", fn, fn.node, True, "no store or mutating call reaches the receiver or an operand", key=f"def {cname}.{mname}")
+    ctx.floor("6-pure", n, 10)
+
+
 def check(ctx: Ctx) -> None:
-    for rule in (rule_all_operands, rule_reads_dims, rule_len_mirror, rule_arms, rule_shape):
+    for rule in (rule_all_operands, rule_reads_dims, rule_len_mirror, rule_arms, rule_shape, rule_pure):
         ctx.run(rule)
 
 
@@ -278,6 +322,8 @@ MUTANTS = [
     Mutant("operand-keys-zipped", F, "                    dims.extend(list(other.items.keys()))\n", "                    dims.append(tuple(other.items.keys()))\n", ("C17.5-shape",), why="seeded C17/2"),
     Mutant("add-multisweep-reversed", F, "        return MultiSweep(self, other)\n\n    def combine(self, other: Sweep) -> MultiSweep:\n        \"\"\"Add another sweep to this MultiSweep.\"\"\"\n        return self + other",
            "        if isinstance(other, MultiSweep):\n            return other.combine(self)\n        return MultiSweep(self, other)\n\n    def combine(self, other: Sweep) -> MultiSweep:\n        \"\"\"Add another sweep to this MultiSweep.\"\"\"\n        return self + other", ("C17.5-shape",), why="seeded C17/3"),
+    Mutant("product-writes-into-receiver", F, "        items = self.items.copy()\n", "        items = self.items\n", ("C17.6-pure",), why="round-2 seed C17/4"),
+    Mutant("list-memoised-on-self", F, "        return self.generate()\n\n    def list(self) -> list[dict[str, Any]]:\n        \"\"\"Return the sweep as a list.\"\"\"\n        return list(self.generate())\n", "        return self.generate()\n\n    def list(self) -> list[dict[str, Any]]:\n        \"\"\"Return the sweep as a list.\"\"\"\n        if getattr(self, \"_combinations\", None) is None:\n            self._combinations = list(self.generate())\n        return self._combinations.copy()\n", ("C17.6-pure",), why="round-2 seed C17/6"),
     Mutant("twin-loop-var-renamed", F, "exclude=_combined_exclude(self.exclude, *(other.exclude for other in others)),", "exclude=_combined_exclude(self.exclude, *(o.exclude for o in others)),", twin=True),
     Mutant("twin-len-comment", F, "            return 0  # `generate` yields nothing without items\n", "            return 0\n", twin=True),
 ]
